@@ -40,7 +40,7 @@ def cond_signature(stream, label):
     if base == "numpoints-invariant" and cls:
         return {"op": "normalize", "class": cls}
     if base in ("hull", "hull-shape", "hull-error"):
-        return {"op": "convexHull", "class": base}
+        return {"op": "convexHull", "class": cls or base}
     if base.startswith("envelope"):
         return {"op": "envelope", "class": base}
     if base.startswith("centroid"):
@@ -125,6 +125,7 @@ def run(ctx):
         "ordinates are compared through the order-preserving integer key F64.key (-0 = +0); NaN ordinates are outside the model and the generators",
         "Orientation::isCCW is transcribed over exact integers (F64.scaleAll); Orientation::index is assumed exact on the generated inputs",
         "the constructions' algorithms (Graham scan, rotating calipers, scan line, triangle fan, MBC search) are not modelled: their outputs are checked by exact certificate checkers whose soundness is proved; 'minimum over hull edge directions = minimum over all directions' is the classical rotating-calipers fact and is not proved",
+        "convex hull: strict corners (no collinear vertex left) are required on grid inputs only; on full-precision inputs Orientation::index is not exact (see findings) and only convexity / containment / corners-are-inputs are required",
         "numeric tolerances of the construct stream: centroid / MBC centre and radius / minimum width 1e-9 of the coordinate magnitude, minimum rotated rectangle 1e-6 (its corners are computed from un-translated line equations); point-on-surface premise 'valid polygon' is GEOSisValid",
     ])
     proved = ctx.prove(PROPS, extra_targets=(DRV,))
@@ -145,6 +146,15 @@ def run(ctx):
     found_input = False
     for stream, n in plan:
         r = verif.run_stream(exe, stream, ctx.seed, n, ctx.work, shards=shards, driver_exe=DRV)
+        if r["error"] and "harness exit" in r["error"]:
+            # the shared library may have been relinked by a concurrent check: wait for that build (lock), rebuild the
+            # harness if needed and try once more
+            log("stream %s failed (%s); rebuilding and retrying once" % (stream, r["error"][:120]))
+            ok2, _ = verif.build_geos("rel")
+            exe2, _ = verif.build_harness("c20")
+            if ok2 and exe2:
+                exe = exe2
+                r = verif.run_stream(exe, stream, ctx.seed, n, ctx.work, shards=shards, driver_exe=DRV)
         ndis = len(r["disagreements"]) + r.get("more_disagreements", 0)
         corr[stream] = {"cases": r["cases"], "disagreements": ndis, "distribution": r["stats"]}
         ctx.cov["samples"] += [{"stream": stream, **s} for s in r.get("samples", [])[:1]]
